@@ -24,6 +24,12 @@ func InitGenesis(
 ) []abci.ValidatorUpdate {
 	k.WithChainID(ctx)
 
+	for _, address := range data.Params.GetActivePrecompilesAddrs() {
+		if !k.IsAvailablePrecompile(address) {
+			panic(fmt.Errorf("active precompile %s is not available", address))
+		}
+	}
+
 	err := k.SetParams(ctx, data.Params)
 	if err != nil {
 		panic(fmt.Errorf("error setting params %s", err))
